@@ -135,7 +135,7 @@ def broken_string_token_handler(lexer, token):
     # probe for the next values (which no valid rules will match)
     position = lexer.lexer.lexpos + len(token.value)
     failure = lexer.lexer.lexdata[position:position + 2]
-    if failure and failure[0] == '\\':
+    if failure and failure[0] == '\\' and failure[1:2] in ('x', 'u'):
         type_ = {'x': 'hexadecimal', 'u': 'unicode'}[failure[1]]
         seq = re.match(
             r'\\[xu][0-9-a-f-A-F]*', lexer.lexer.lexdata[position:]
@@ -143,6 +143,15 @@ def broken_string_token_handler(lexer, token):
         raise ECMASyntaxError(
             "Invalid %s escape sequence '%s' at %s:%s" % (
                 type_, seq, lexer.lineno,
+                lexer._get_colno_lexpos(position)
+            )
+        )
+    elif (len(failure) == 2 and failure[0] == '\\' and
+            not PATT_LINE_TERMINATOR_SEQUENCE.match(failure[1])):
+        # any other escape sequence that is not permitted, e.g. \8
+        raise ECMASyntaxError(
+            "Invalid escape sequence '%s' at %s:%s" % (
+                failure, lexer.lineno,
                 lexer._get_colno_lexpos(position)
             )
         )
